@@ -1,10 +1,38 @@
 (* C20 — Event handlers are atomic.  Statements only; proofs in Proofs/LockP.v.
-   The program [P] (function name -> flat sequence of lock operations, guarded
-   accesses and calls) and the guard map [G] are regenerated from the Go AST by
-   tools/lockfacts on every run; the obligations about the generated facts
-   (repo_well_locked, repo_wrappers_registered, repo_no_escape, repo_race_free)
-   are stated and checked in .work/C20/RepoLock.v (template: tools/lockfacts/RepoLock.v)
-   by vm_compute during the check run. *)
+
+   PARTIAL — what is and what is not a theorem about metallb here.
+
+   * The program [P] (function name -> flat sequence of lock operations, guarded accesses, calls,
+     channel operations), the guard map [G], the owner map and the entry points are regenerated
+     from the Go AST by tools/lockfacts on every run; obligations about them are stated in
+     .work/C20/RepoLock.v (template tools/lockfacts/RepoLock.v) and closed by vm_compute.
+   * APPLIED TO THE GENERATED FACTS through a soundness theorem: only the lock-set checker —
+     C20_lockset_sound / C20_lockset_sound_from (no reachable state of [steps] with two goroutines
+     at conflicting accesses), C20_mutual_exclusion, and C20_well_locked_local_progress (no
+     goroutine waits for a mutex it holds itself; any other pending step is enabled) —
+     instantiated by repo_well_locked / repo_race_free.  Scope: fields that have an INNER mutex
+     (declared + inferred guard map).  Nothing is guarded by Listener.Mutex in the generated
+     facts: the wrappers are [Acq; CallCb c; Rel] with an opaque callback, so the handler bodies
+     do not appear under the Listener lock; state protected only by it is covered by the
+     registration check, the -race harnesses and the serial-replay oracle, not by a theorem.
+     [steps] is sequentially consistent, one name per struct FIELD (not per object), flat bodies
+     (side conditions unstructured = [] /\ may_leak = [] come from the untrusted translator), and
+     it has no global progress theorem: Send / Recv never block in it.
+   * MODELS OF A PATTERN, separate small transition systems that share nothing with [program] /
+     [steps]; they explain why a checker looks for a shape and are NOT statements about the
+     translated program: C20_handlers_serial / _exclusive (one mutex, abstract transformers),
+     C20_rw_sections_atomic (one RWMutex), C20_send_under_lock_deadlocks / _after_unlock_progress,
+     C20_recursive_rlock_deadlocks / C20_sequential_rlock_progress (two-party systems),
+     C20_notify_after_state / _before_state_stale (traces of one handler).
+   * CHECKERS EVALUATED ON THE GENERATED FACTS, NOT JUSTIFIED AGAINST [steps] (no soundness
+     lemma): wrappers_ok, no_escape, confined, lock_order_ok, no_blocking_send_under_lock,
+     notify_after_state (flat order + depth of the last write / notification; early returns and
+     paths are not separated), and no_recursive_lock (a second, coarser evaluation over all
+     functions with owner tokens ignored of what the lock-set checker already refuses per entry
+     point — for the latter C20_well_locked_local_progress is the theorem).  "Equal to a serial
+     order" and "no deadlocks" of the property are therefore not theorems about the translated
+     program; the evidence for them is the runtime part (serial replay, watchdog schedules,
+     timeouts, eager status consumers). *)
 From Coq Require Import List String Bool Arith.
 From Verif Require Import Model.Lock Proofs.LockP.
 Import ListNotations.
@@ -26,7 +54,25 @@ Theorem C20_mutual_exclusion : forall G P bodies c0 c,
   forall i j m, i <> j -> In m (hx (c i)) -> ~ In m (hx (c j)) /\ ~ In m (hr (c j)).
 Proof. exact mutual_exclusion. Qed.
 
-(* handlers bracketed by ONE mutex: any interleaved run, observed when no handler
+(* no self-deadlock and local progress in [steps] for a program that passes the checker (applied to
+   the generated facts through repo_well_locked): a goroutine about to Lock / RLock a mutex does
+   not hold it in any mode — so it can only be waiting for ANOTHER goroutine, and proceeds as soon
+   as nobody else holds the mutex (for RLock: holds it exclusively) —, and every other pending
+   instruction (Unlock of a held mutex, accesses, callbacks, channel operations) is enabled *)
+Theorem C20_well_locked_local_progress : forall G O bodies c0 c i,
+  forallb (check G O [] []) bodies = true -> idle c0 -> steps bodies c0 c ->
+  match code (c i) with
+  | [] => True
+  | Acq m :: _ => (~ In m (hx (c i)) /\ ~ In m (hr (c i))) /\
+                  ((forall j, j <> i -> ~ In m (hx (c j)) /\ ~ In m (hr (c j))) -> exists c', step bodies c c')
+  | AcqR m :: _ => (~ In m (hx (c i)) /\ ~ In m (hr (c i))) /\
+                   ((forall j, j <> i -> ~ In m (hx (c j))) -> exists c', step bodies c c')
+  | CondB :: _ | CondE :: _ => True
+  | _ => exists c', step bodies c c'
+  end.
+Proof. exact well_locked_local_progress. Qed.
+
+(* PATTERN MODEL (not about the translated program). handlers bracketed by ONE mutex: any interleaved run, observed when no handler
    is inside, equals running the started handlers one at a time in the order in
    which they acquired the mutex; bodies are arbitrary state transformers *)
 Theorem C20_handlers_serial : forall (S : Type) (bodies : nat -> list (S -> S)) (s0 : S) c,
@@ -41,7 +87,7 @@ Theorem C20_handlers_exclusive : forall (S : Type) (bodies : nat -> list (S -> S
   forall i j r r', hs S c i = TIn S r -> hs S c j = TIn S r' -> i = j.
 Proof. exact handlers_exclusive. Qed.
 
-(* readers and writers under ONE RWMutex (the announcer's methods against the responders, the
+(* PATTERN MODEL (not about the translated program). readers and writers under ONE RWMutex (the announcer's methods against the responders, the
    spam loop and the status fetcher; allocator / BGP counters against their fetchers): every
    answer a reader obtains is its query on the state left by a PREFIX of the COMPLETE writer
    sections — never a half-updated state; outside writer sections the state is the serial
@@ -55,7 +101,7 @@ Theorem C20_rw_sections_atomic : forall (S A : Type) (wb : nat -> list (S -> S))
      (writer_in S A (rths S A c j) -> i = j) /\ ~ reader_in S A (rths S A c j)).
 Proof. exact rw_sections_atomic. Qed.
 
-(* no deadlock between a handler that queues work for a consumer loop and that loop
+(* PATTERN MODEL (not about the translated program). no deadlock between a handler that queues work for a consumer loop and that loop
    (Announce.SetBalancer -> spamCh -> spamLoop -> gratuitous -> RLock), bounded queue of any
    capacity >= 1:  if the blocking send happens while the handler still holds the mutex the
    consumer needs, a state is reachable in which nothing can move (queue full, handler waits for
@@ -83,7 +129,7 @@ Theorem C20_lockset_sound_from : forall G O P entries bodies c0 c,
   idle c0 -> steps bodies c0 c -> ~ racy G c.
 Proof. exact lockset_sound_from. Qed.
 
-(* sync.RWMutex refuses new readers once a writer waits: a reader that re-acquires the read lock
+(* PATTERN MODEL (not about the translated program). sync.RWMutex refuses new readers once a writer waits: a reader that re-acquires the read lock
    it already holds (gratuitous -> shouldAnnounce) and a writer asking for the lock in between
    are stuck forever; without nesting every state is final or can move.  The obligation
    repo_no_recursive_lock decides over all call paths (calls inlined) that no mutex is
@@ -121,7 +167,7 @@ Example C20_nonvacuous_owner :
   no_recursive_lock [run] = true /\ lock_order_ok [run] = true.
 Proof. vm_compute. repeat split. Qed.
 
-(* handler effects are atomic with respect to the independent status reconcilers: a handler is a trace
+(* PATTERN MODEL (not about the translated program). handler effects are atomic with respect to the independent status reconcilers: a handler is a trace
    of state writes and notifications, the reconciler is an EAGER consumer that reads the state at
    every notification (it may be scheduled between the notification and the rest of the handler, its
    fetcher needs only the component's lock).  If published = state before the handler and every
